@@ -1144,13 +1144,38 @@ def shrink_all(ctx: "vlib.Ctx", pool: Pool, F: Findings, keys: list[str], max_ro
                 v["done"] = True
             else:
                 v["n"] = min(len(v["lines"]), v["n"] * 2)
+    shrunk = []
     for k, v in st.items():
         new = "\n".join(v["lines"])
         d = F.items[k]["data"]
         if len(new) < len(d["source"]):
             d["source_before_shrinking_len"] = len(d["source"])
             d["source"] = new
-            d["note"] = "source shrunk by line-based delta debugging; the recorded outputs are those of the original witness"
+            shrunk.append(k)
+    # record the outputs of the shrunk witnesses themselves
+    if shrunk:
+        ptasks = [{"kind": "parse", "programs": [{"name": "w.py" + ("i" if st[k]["stub"] else ""), "src": F.items[k]["data"]["source"],
+                                                  "vers": [st[k]["ver"]]}], "dump": False} for k in shrunk]
+        ctasks = [{"kind": "check", "files": {"w.py" + ("i" if st[k]["stub"] else ""): F.items[k]["data"]["source"]}, "ver": st[k]["ver"],
+                   "native": nat, "flags": []} for k in shrunk if st[k]["level"] == "check" for nat in (False, True)]
+        res = pool.map(ptasks + ctasks, timeout=1800)
+        ci = len(ptasks)
+        for j, k in enumerate(shrunk):
+            d = F.items[k]["data"]
+            if st[k]["level"] == "check":
+                od, on = res[ci], res[ci + 1]
+                ci += 2
+                d["default"] = (od.get("stdout") or "").splitlines() + [l for l in (od.get("stderr") or "").splitlines()[-3:]]
+                d["native"] = (on.get("stdout") or "").splitlines() + [l for l in (on.get("stderr") or "").splitlines()[-3:]]
+            else:
+                r = res[j]
+                try:
+                    pr = next(iter(r["results"][0]["vers"].values()))
+                    d["default"] = {"blocked": pr["d"].get("blocked"), "msgs": pr["d"].get("msgs"), "crash": pr["d"].get("crash")}
+                    d["native"] = {"blocked": pr["n"].get("blocked"), "msgs": pr["n"].get("msgs"), "crash": pr["n"].get("crash")}
+                except Exception:  # noqa: BLE001
+                    pass
+            d["note"] = "witness shrunk by line-based delta debugging; `default`/`native` are the outputs for the shrunk source"
 
 
 CLAMP_HEADER = """From Coq Require Import ZArith List Bool.
